@@ -209,10 +209,13 @@ func (s *TxStore) insertMemPoolTx(tx mwdb.DBTransaction, rec *TxRecord) error {
 
 func (s *TxStore) insertMinedTx(tx mwdb.DBTransaction, allBalances map[string]massutil.Amount, rec *TxRecord, block *BlockMeta) error {
 	nsTxRecords := tx.FetchBucket(s.bucketMeta.nsTxRecords)
-	if _, v := existsTxRecord(nsTxRecords, &rec.Hash, block); v != nil {
+	_, v, err := existsTxRecord(nsTxRecords, &rec.Hash, block)
+	if err != nil {
+		return err
+	}
+	if v != nil {
 		return nil
 	}
-	var err error
 	nsBlocks := tx.FetchBucket(s.bucketMeta.nsBlocks)
 	blockKey, blockValue, err := existsBlockRecord(nsBlocks, block.Height)
 	if err != nil {
@@ -241,7 +244,7 @@ func (s *TxStore) insertMinedTx(tx mwdb.DBTransaction, allBalances map[string]ma
 	// If this transaction previously existed within the store as unmined,
 	// we'll need to remove it from the unmined bucket.
 	nsUnmined := tx.FetchBucket(s.bucketMeta.nsUnmined)
-	v, err := existsRawUnmined(nsUnmined, rec.Hash[:])
+	v, err = existsRawUnmined(nsUnmined, rec.Hash[:])
 	if err != nil {
 		return err
 	}
@@ -280,7 +283,10 @@ func (s *TxStore) insertMinedTxForImporting(tx mwdb.DBTransaction,
 	nsBlocks := tx.FetchBucket(s.bucketMeta.nsBlocks)
 	nsTxRecords := tx.FetchBucket(s.bucketMeta.nsTxRecords)
 
-	_, v := existsTxRecord(nsTxRecords, &rec.Hash, block)
+	_, v, err := existsTxRecord(nsTxRecords, &rec.Hash, block)
+	if err != nil {
+		return err
+	}
 	exists := v != nil
 
 	blockKey, blockValue, err := existsBlockRecord(nsBlocks, block.Height)
@@ -509,7 +515,10 @@ func (s *TxStore) ExistsTx(tx mwdb.ReadTransaction, out *wire.OutPoint) (mtx *wi
 	}
 
 	if found {
-		_, recVal := existsTxRecord(nsTxRecords, &cred.outPoint.Hash, cred.block)
+		_, recVal, err := existsTxRecord(nsTxRecords, &cred.outPoint.Hash, cred.block)
+		if err != nil {
+			return nil, nil, err
+		}
 		_, txLoc, err := readTxRecordLoc(recVal)
 		if err != nil {
 			return nil, nil, err
@@ -694,7 +703,10 @@ func (s *TxStore) Rollback(tx mwdb.DBTransaction, height uint64) error {
 		// order inside the block. Undo them in reverse block order, so that
 		// a transaction is rolled back before the one whose output it spends.
 		txStart := func(h *wire.Hash) int {
-			_, v := existsTxRecord(nsTxRecords, h, &rbBlock.BlockMeta)
+			_, v, err := existsTxRecord(nsTxRecords, h, &rbBlock.BlockMeta)
+			if err != nil {
+				return -1
+			}
 			_, loc, err := readTxRecordLoc(v)
 			if err != nil {
 				return -1
@@ -708,7 +720,10 @@ func (s *TxStore) Rollback(tx mwdb.DBTransaction, height uint64) error {
 		for i := len(rbBlock.transactions) - 1; i >= 0; i-- {
 			txHash := &rbBlock.transactions[i]
 
-			recKey, recVal := existsTxRecord(nsTxRecords, txHash, &rbBlock.BlockMeta)
+			recKey, recVal, err := existsTxRecord(nsTxRecords, txHash, &rbBlock.BlockMeta)
+			if err != nil {
+				return err
+			}
 			blkLoc, txLoc, err := readTxRecordLoc(recVal)
 			if err != nil {
 				logging.CPrint(logging.WARN, "readTxRecordLoc failed",
